@@ -7,9 +7,29 @@ package vsync
 
 import (
 	"sync"
+	"time"
 
 	"verif/sched"
 )
+
+// LeakGrace: outside a controlled execution the sequential checks run one request at a time, so a mutex
+// that is still held when a request wants it was leaked by an earlier request (an early return that skipped
+// the unlock). Waiting natively would hang the checker; after this grace period (which only a free-running
+// background goroutine of the emulator could legitimately need) the wait is reported as a panic.
+var LeakGrace = 8 * time.Second
+
+func lockOrReport(try func() bool, what string) {
+	if try() {
+		return
+	}
+	deadline := time.Now().Add(LeakGrace)
+	for !try() {
+		if time.Now().After(deadline) {
+			panic("verif: " + what + " is held although no other request is running: an earlier request left it locked (the service is wedged)")
+		}
+		time.Sleep(200 * time.Microsecond)
+	}
+}
 
 type (
 	Once      = sync.Once
@@ -33,8 +53,10 @@ type Mutex struct {
 func (m *Mutex) Lock() {
 	if t := sched.Cur(); t != nil {
 		t.Lock(&m.st, "Mutex.Lock")
+		m.mu.Lock()
+		return
 	}
-	m.mu.Lock()
+	lockOrReport(m.mu.TryLock, "a sync.Mutex")
 }
 
 //go:norace
@@ -73,8 +95,10 @@ type RWMutex struct {
 func (m *RWMutex) Lock() {
 	if t := sched.Cur(); t != nil {
 		t.Lock(&m.st, "RWMutex.Lock")
+		m.mu.Lock()
+		return
 	}
-	m.mu.Lock()
+	lockOrReport(m.mu.TryLock, "a sync.RWMutex (write lock wanted)")
 }
 
 //go:norace
@@ -94,8 +118,10 @@ func (m *RWMutex) Unlock() {
 func (m *RWMutex) RLock() {
 	if t := sched.Cur(); t != nil {
 		t.RLock(&m.st, "RWMutex.RLock")
+		m.mu.RLock()
+		return
 	}
-	m.mu.RLock()
+	lockOrReport(m.mu.TryRLock, "a sync.RWMutex (read lock wanted)")
 }
 
 //go:norace
